@@ -36,11 +36,23 @@ props! {
     "C12" => c12,
     "C13" => c13,
     "C14" => c14,
+    "C15" => c15,
     "C16" => c16,
     "C17" => c17,
+    "C18" => c18,
     "C19" => c19,
 }
 
-pub fn iso_space(_prop: &str, _mode: &str, _tier: Tier) -> Option<Box<dyn IsoSpace>> {
-    None
+pub fn iso_space(prop: &str, mode: &str, tier: Tier) -> Option<Box<dyn IsoSpace>> {
+    match prop {
+        "C18" => match mode.strip_prefix("one:") {
+            Some(i) => Some(Box::new(c18::OneOf { inner: c18::space(tier), idx: i.parse().ok()? })),
+            None => Some(Box::new(c18::space(tier))),
+        },
+        "C15" => match mode.strip_prefix("one:") {
+            Some(i) => Some(Box::new(c15::OneOf { inner: c15::Space::new(tier), idx: i.parse().ok()? })),
+            None => Some(Box::new(c15::Space::new(tier))),
+        },
+        _ => None,
+    }
 }
